@@ -18,7 +18,11 @@ import time
 V = os.path.dirname(os.path.dirname(os.path.abspath(__file__)))
 REPO = os.environ.get("VERIF_REPO", "/repo")
 BUILD = os.path.join(V, "build")
+# An alternative tree (a scratch worktree carrying a seeded change) can be checked with
+# VERIF_REPO=/path: the harness is then built against it into its own bin directory.
+ALT = "" if REPO == "/repo" else hashlib.sha1(REPO.encode()).hexdigest()[:8]
 BIN = os.path.join(BUILD, "bin")
+HBIN = BIN if not ALT else os.path.join(BUILD, "alt-" + ALT, "bin")
 COQ = os.path.join(V, "coq")
 
 GOENV = dict(os.environ, GOFLAGS="-mod=mod", GOPROXY="off", GOSUMDB="off",
@@ -192,8 +196,9 @@ _repo_ok = {}
 def build_harness(name, race=False):
     """Build harness/cmd/<name> with -tags verif against /repo's working tree -> build/bin/hv-<name>."""
     hd = os.path.join(V, "harness")
-    out = os.path.join(BIN, "hv-%s%s" % (name, "-race" if race else ""))
-    with Lock("go"):
+    os.makedirs(HBIN, exist_ok=True)
+    out = os.path.join(HBIN, "hv-%s%s" % (name, "-race" if race else ""))
+    with Lock("go" + ALT):
         # the harness module always resolves hprose to /repo's working tree
         try:
             src = open(os.path.join(REPO, "go.sum")).read()
@@ -208,6 +213,11 @@ def build_harness(name, race=False):
                 raise EnvError("/repo does not compile: " + e[-3000:])
             _repo_ok["ok"] = True
         cmd = ["go", "build", "-tags", "verif", "-o", out]
+        if ALT:
+            mod = os.path.join(BUILD, "alt-" + ALT, "go.mod")
+            open(mod, "w").write(open(os.path.join(hd, "go.mod")).read().replace("=> /repo", "=> " + REPO))
+            open(mod[:-3] + "sum", "w").write(open(os.path.join(REPO, "go.sum")).read())
+            cmd.append("-modfile=" + mod)
         env = dict(GOENV)
         if race:
             cmd.insert(2, "-race")
@@ -248,7 +258,7 @@ def build_modelrun(name):
 
 def run_harness(name, cases, timeout=3000, race=False, extra_env=None, args=()):
     """cases: list of JSON-able dicts -> (rc, list of observation dicts, stderr)."""
-    exe = os.path.join(BIN, "hv-%s%s" % (name, "-race" if race else ""))
+    exe = os.path.join(HBIN, "hv-%s%s" % (name, "-race" if race else ""))
     inp = "".join(json.dumps(c, separators=(",", ":")) + "\n" for c in cases)
     env = dict(os.environ)
     if extra_env:
